@@ -860,9 +860,16 @@ Dump JSON serializes and writes the Metablock on which it was called to the
 passed path.  It returns an error if JSON serialization or writing fails.
 */
 func (mb *Metablock) Dump(path string) error {
+	// A nil signature list would be written as null, which cannot be loaded
+	// again; write an empty list instead
+	out := *mb
+	if out.Signatures == nil {
+		out.Signatures = []Signature{}
+	}
+
 	// JSON encode Metablock formatted with newlines and indentation
 	// TODO: parametrize format
-	jsonBytes, err := json.MarshalIndent(mb, "", "  ")
+	jsonBytes, err := json.MarshalIndent(&out, "", "  ")
 	if err != nil {
 		return err
 	}
